@@ -23,7 +23,7 @@ var purePkgs = map[string]bool{
 	"fmt": true, "errors": true, "strings": true, "strconv": true, "bytes": true, "unicode": true, "math": true,
 	"reflect": true, "context": true, "sync": true, "time": true, "unicode/utf8": true, "regexp": true, "runtime": true,
 	"github.com/getlantern/errors": true, "path/filepath": true, "math/rand": true, "net/url": true,
-	"hash": true, "io": true, "github.com/getlantern/bytemap": true, "github.com/spaolacci/murmur3": true,
+	"hash": true, "io": true, "os": true, "io/ioutil": true, "crypto/sha256": true, "encoding/hex": true, "bufio": true, "github.com/getlantern/bytemap": true, "github.com/spaolacci/murmur3": true,
 }
 
 func (tx *FnTx) setResult(v ssa.Value, sig *types.Signature, res []Term) {
@@ -485,6 +485,10 @@ func (tx *FnTx) callDynamic(cc *ssa.CallCommon, v ssa.Value, args []Term, st *St
 	tx.curCallArgs = args
 	tx.checkCallAsserts(desc, "before", st, st, nil)
 	tx.safety("nilfunc", "(not (= "+fv.S+" 0))", "call of non-nil function value "+name)
+	if tx.c != nil && tx.c.NoReturn[name] {
+		tx.note("calls of " + name + " in " + tx.key + " assumed never to return (trusted)")
+		tx.assumeReach("false")
+	}
 	var post *State
 	if items, ok := tx.callbackFrame(name); ok {
 		env := tx.baseEnv(st, tx.entry)
